@@ -71,12 +71,16 @@ template <> struct BackHist<HistNone> { typedef msm::back::NoHistory type; };
 template <> struct BackHist<HistAlways> { typedef msm::back::AlwaysHistory type; };
 template <class... E> struct BackHist<HistShallow<E...>> { typedef msm::back::ShallowHistory<mpl::vector<E...>> type; };
 struct CBack {
+  template <class F, class SM> static bool flag_or(SM& f) { return f.template is_flag_active<F>(); }
+  template <class F, class SM> static bool flag_and(SM& f) { return f.template is_flag_active<F, typename SM::Flag_AND>(); }
   template <class Front, class Hi> using sm = msm::back::state_machine<Front, typename BackHist<Hi>::type>;
   template <class SM, class S> static int id() { return msm::back::get_state_id<typename SM::stt, S>::value; }
   template <class SM> static void drain(SM& f, int max) {
     if (max == 0) f.execute_queued_events(); else if (f.get_message_queue_size() > 0) f.execute_single_queued_event(); }
 };
 struct CBackFct {
+  template <class F, class SM> static bool flag_or(SM& f) { return CBack::flag_or<F>(f); }
+  template <class F, class SM> static bool flag_and(SM& f) { return CBack::flag_and<F>(f); }
   template <class Front, class Hi> using sm = msm::back::state_machine<Front, typename BackHist<Hi>::type, msm::back::favor_compile_time>;
   template <class SM, class S> static int id() { return msm::back::get_state_id<typename SM::stt, S>::value; }
   template <class SM> static void drain(SM& f, int max) { CBack::drain(f, max); }
@@ -87,6 +91,8 @@ template <> struct BackHist<HistNone> { typedef msm::back::NoHistory type; };
 template <> struct BackHist<HistAlways> { typedef msm::back::AlwaysHistory type; };
 template <class... E> struct BackHist<HistShallow<E...>> { typedef msm::back::ShallowHistory<mpl::vector<E...>> type; };
 struct CBack11 {
+  template <class F, class SM> static bool flag_or(SM& f) { return f.template is_flag_active<F>(); }
+  template <class F, class SM> static bool flag_and(SM& f) { return f.template is_flag_active<F, typename SM::Flag_AND>(); }
   template <class Front, class Hi> using sm = msm::back11::state_machine<Front, void, typename BackHist<Hi>::type>;
   template <class SM, class S> static int id() { return msm::back::get_state_id<typename SM::stt, S>::value; }
   template <class SM> static void drain(SM& f, int max) {
@@ -102,6 +108,8 @@ struct FpaPolicy : msm::backmp11::favor_runtime_speed { using dispatch_strategy 
 struct CfgFpa : msm::backmp11::default_state_machine_config { using compile_policy = FpaPolicy; };
 struct CfgFct : msm::backmp11::default_state_machine_config { using compile_policy = msm::backmp11::favor_compile_time; };
 template <class Cfg> struct CMp11T {
+  template <class F, class SM> static bool flag_or(SM& f) { return f.template is_flag_active<F>(); }
+  template <class F, class SM> static bool flag_and(SM& f) { return f.template is_flag_active<F, msm::backmp11::flag_and>(); }
   template <class Front, class Hi> using sm = Mp11Sm<Front, Cfg>;
   template <class SM, class S> static int id() { return (int)SM::template get_state_id<S>(); }
   template <class SM> static void drain(SM& f, int max) { if (max == 0) f.process_event_pool(); else f.process_event_pool(1); }
